@@ -164,6 +164,8 @@ var c20Menus = map[string][]c20Outcome{
 		{"2issues", false, 2, vexec.Outcome{Stdout: []byte(`[{"line":2,"column":1,"level":"warning","code":2086,"message":"Double quote."},{"line":2,"column":3,"level":"info","code":2016,"message":"Other."}]`), ExitCode: 1}},
 		{"exit-nonzero-empty-stdout", true, 0, vexec.Outcome{ExitCode: 2, Stderr: []byte("boom")}},
 		{"killed-by-signal", true, 0, vexec.Outcome{ExitCode: -1}},
+		{"killed-after-json-output", true, 0, vexec.Outcome{ExitCode: -1, Stdout: []byte(`[]`)}},
+		{"killed-after-partial-issues", true, 0, vexec.Outcome{ExitCode: -1, Stdout: []byte(`[{"line":2,"column":1,"level":"warning","code":2086,"message":"Double quote."}]`)}},
 		{"start-failure", true, 0, vexec.Outcome{StartErr: errors.New("fork/exec /fake/shellcheck: exec format error")}},
 		{"stdin-pipe-error", true, 0, vexec.Outcome{PipeErr: errors.New("pipe: too many open files")}},
 		{"stdin-write-error", true, 0, vexec.Outcome{WriteErr: errors.New("write |1: broken pipe")}},
@@ -175,6 +177,7 @@ var c20Menus = map[string][]c20Outcome{
 		{"2issues", false, 2, vexec.Outcome{Stdout: []byte("<stdin>:1:1: 'os' imported but unused\n<stdin>:2:1: undefined name 'x'\n"), ExitCode: 1}},
 		{"exit-nonzero-empty-stdout", true, 0, vexec.Outcome{ExitCode: 1}},
 		{"killed-by-signal", true, 0, vexec.Outcome{ExitCode: -1}},
+		{"killed-after-partial-output", true, 0, vexec.Outcome{ExitCode: -1, Stdout: []byte("<stdin>:1:1: 'os' imported but unused\n")}},
 		{"start-failure", true, 0, vexec.Outcome{StartErr: errors.New("fork/exec /fake/pyflakes: exec format error")}},
 		{"stdin-pipe-error", true, 0, vexec.Outcome{PipeErr: errors.New("pipe: too many open files")}},
 		{"stdin-write-error", true, 0, vexec.Outcome{WriteErr: errors.New("write |1: broken pipe")}},
@@ -444,7 +447,7 @@ func TestVerifC20(t *testing.T) {
 	r.Bounds["preemptions"] = maxPreempt
 	r.Bounds["non_default_tool_outcomes"] = maxFault
 	r.Bounds["sanitize_string_length"] = sanLen
-	r.Extra["rule"] = "per scenario (files<=2, jobs<=2, run steps<=3, every shell source, semaphore size 1|2): all interleavings of the real Linter/concurrentProcess/rule callbacks over scripted os/exec up to the preemption bound x all per-invocation tool outcomes (9 shellcheck, 8 pyflakes) with at most F non-default answers; plus sanitizeExpressionsInScript on all strings <= L over {$,{,},a,space,newline}. class = observation shape (fatal?, diagnostics, outcomes); non-trivial = a tool reported an issue or failed"
+	r.Extra["rule"] = "per scenario (files<=2, jobs<=2, run steps<=3, every shell source, semaphore size 1|2): all interleavings of the real Linter/concurrentProcess/rule callbacks over scripted os/exec up to the preemption bound x all per-invocation tool outcomes (11 shellcheck, 9 pyflakes) with at most F non-default answers; plus sanitizeExpressionsInScript on all strings <= L over {$,{,},a,space,newline}. class = observation shape (fatal?, diagnostics, outcomes); non-trivial = a tool reported an issue or failed"
 	r.Extra["assumptions"] = []string{"tool processes are scripted (vexec); the real os/exec is not exercised", "RWMutex writer preference and semaphore FIFO order are not modelled (a superset of interleavings is explored)", "scheduling points are the sync operations; data-race freedom between them is supported by a separate -race run, not decided here"}
 	scs := c20Scenarios()
 
